@@ -16,16 +16,20 @@ CONSTANT MaxReqs
 
 Endpoints == {"raw", "event"}
 Encodings == {"", "identity", "deflate", "lz4", "gzip", "x-long"}
-Bodies    == {"proto", "empty", "garbage", "z_proto", "z_garbage", "z_trunc", "z_empty", "l_proto", "l_garbage", "l_trunc", "l_empty"}
+Bodies    == {"proto", "empty", "garbage", "z_proto", "z_garbage", "z_trunc", "z_empty", "l_proto", "l_garbage", "l_trunc", "l_empty",
+              \* frame-structure classes: lz4 frame with the content-size field present and truthful / lying (small, huge),
+              \* block checksums on, a block length field larger than the frame; zlib stream announcing a preset dictionary
+              "l_sized", "l_size_lie", "l_size_huge", "l_blocksum", "l_blocklen_lie", "z_dictflag"}
 
 \* what the encoding layer yields: the payload class, or "fail", or "unknown" (library-dependent)
 Decompressed(enc, body) ==
   CASE enc \in {"", "identity"} -> (IF body \in {"proto", "empty"} THEN body ELSE "garbage")
     [] enc = "deflate" -> (CASE body = "z_proto" -> "proto" [] body = "z_garbage" -> "garbage" [] body = "z_empty" -> "empty"
-                             [] body \in {"z_trunc", "empty", "l_proto", "l_garbage", "l_trunc", "l_empty"} -> "fail"
+                             [] body \in {"z_trunc", "z_dictflag", "empty", "l_proto", "l_garbage", "l_trunc", "l_empty", "l_sized",
+                                          "l_size_lie", "l_size_huge", "l_blocksum", "l_blocklen_lie"} -> "fail"
                              [] OTHER -> "unknown")
-    [] enc = "lz4" -> (CASE body = "l_proto" -> "proto" [] body = "l_garbage" -> "garbage" [] body = "l_empty" -> "empty"
-                         [] body \in {"z_proto", "z_garbage", "z_trunc", "z_empty"} -> "fail"
+    [] enc = "lz4" -> (CASE body \in {"l_proto", "l_sized", "l_blocksum"} -> "proto" [] body = "l_garbage" -> "garbage" [] body = "l_empty" -> "empty"
+                         [] body \in {"z_proto", "z_garbage", "z_trunc", "z_empty", "z_dictflag"} -> "fail"
                          [] OTHER -> "unknown")
     [] OTHER -> "badenc"
 
